@@ -80,10 +80,41 @@ if True:
 obj = Child()
 got = obj.run(made, extra=floor(1.5))
 ''',
+ # a plain function and a generator, each with unchanged leading body lines, both called AND
+    # iterated at module level (so every battery run executes them): generator-ness of a function
+    # whose body TAIL is edited (parso keeps the funcdef node object then)
+    'gen': '''\
+import math
+
+
+def produce(n):
+    first = "a"
+    second = "b"
+    third = math.floor(n)
+    return 1.0
+
+
+def stream(n):
+    one = "a"
+    two = "b"
+    three = math.floor(n)
+    yield 1
+
+
+res = produce(3)
+res.real
+for item in produce(3):
+    item.real
+got = stream(3)
+got.send
+for piece in stream(3):
+    piece.real
+''',
 }
 
 # per base: the call typed character by character at the end of the buffer
 TYPED = {
+    'gen': 'tail = produce(4)',
     'funcs': 'tail = alpha(value, 5)',
     'klass': 'tail = sq.describe(msg)',
     'mixed': 'tail = obj.run(got, 1)',
@@ -323,6 +354,52 @@ def ev_indent_raw(lines, base):
     return out
 
 
+def _tail_line(lines, keyword):
+    """Index of the last body line of the first top-level def with >= 3 body lines whose last
+    body line starts with `keyword` (return / yield); None if there is none."""
+    for i, ln in enumerate(lines):
+        if not ln.startswith('def '):
+            continue
+        j = _block_end(lines, i)
+        body = [k for k in range(i + 1, j) if lines[k].strip()]
+        if len(body) >= 3 and lines[body[-1]].strip().split(' ')[0] == keyword:
+            return body[-1]
+    return None
+
+
+def ev_add_yield_tail(lines, base):
+    """Append `yield "s"` as the new last body line of the first function ending in a return."""
+    k = _tail_line(lines, 'return')
+    return None if k is None else lines[:k + 1] + ['    yield "s"\n'] + lines[k + 1:]
+
+
+def ev_del_yield_tail(lines, base):
+    """Delete the trailing yield line of the first function ending in a yield."""
+    k = _tail_line(lines, 'yield')
+    return None if k is None else lines[:k] + lines[k + 1:]
+
+
+def ev_change_yield_type(lines, base):
+    """Trailing `yield 1` <-> `yield 'a'` (any other trailing yield becomes `yield 1`)."""
+    k = _tail_line(lines, 'yield')
+    if k is None:
+        return None
+    new = "    yield 'a'\n" if lines[k].strip() == 'yield 1' else '    yield 1\n'
+    return lines[:k] + [new] + lines[k + 1:]
+
+
+def ev_return_to_yield(lines, base):
+    """The trailing `return X` of the first function ending in a return becomes `yield 1`."""
+    k = _tail_line(lines, 'return')
+    return None if k is None else lines[:k] + ['    yield 1\n'] + lines[k + 1:]
+
+
+def ev_yield_to_return(lines, base):
+    """The trailing yield of the first function ending in a yield becomes `return 1.0`."""
+    k = _tail_line(lines, 'yield')
+    return None if k is None else lines[:k] + ['    return 1.0\n'] + lines[k + 1:]
+
+
 def ev_paste(lines, base):
     i = _middle(lines)
     return lines[:i] + PASTE + lines[i:]
@@ -355,10 +432,16 @@ EVENTS = {
     'indent': ev_indent, 'dedent': ev_dedent, 'indent_raw': ev_indent_raw,
     'paste': ev_paste, 'paste_end': ev_paste_end,
     'type': ev_type,
+    'add_yield_tail': ev_add_yield_tail, 'del_yield_tail': ev_del_yield_tail,
+    'change_yield_type': ev_change_yield_type, 'return_to_yield': ev_return_to_yield,
+    'yield_to_return': ev_yield_to_return,
 }
+YIELD_EVENTS = ('add_yield_tail', 'del_yield_tail', 'change_yield_type', 'return_to_yield',
+                'yield_to_return')
 CLOCK = {'wait4': 4.0, 'wait601': 601.0}
 SPECIAL = ('undo',) + tuple(CLOCK)
-ALL_EVENTS = tuple(EVENTS) + SPECIAL
+ALL_EVENTS = tuple(e for e in EVENTS if not e.endswith(('_tail', '_type', 'to_yield',
+                                                         'to_return'))) + SPECIAL
 
 
 def typing_steps(text, base):
